@@ -123,7 +123,7 @@ pub fn get_newintarray<S: HasComponent<Component>>() -> command::BuiltIn<S> {
 }
 
 fn newintarray_primitive_fn<S: HasComponent<Component>>(
-    _: token::Token,
+    token: token::Token,
     input: &mut vm::ExecutionInput<S>,
 ) -> txl::Result<()> {
     let command_ref = Option::<token::CommandRef>::parse(input)?;
@@ -131,6 +131,14 @@ fn newintarray_primitive_fn<S: HasComponent<Component>>(
     let Some(command_ref) = command_ref else {
         return Ok(());
     };
+    // Growing the vector aborts the process if the memory can't be allocated, so check first.
+    let component = input.state_mut().component_mut();
+    if component.arrays.try_reserve(len).is_err() {
+        return Err(input.fatal_error(error::SimpleTokenError::new(
+            token,
+            format!["not enough memory for an array of length {len}"],
+        )));
+    }
     let component = input.state_mut().component_mut();
     let start = component.arrays.len();
     component.arrays.resize(start + len, Default::default());
